@@ -575,6 +575,8 @@ func batchEffects(repo string) string {
 		switch {
 		case strings.HasSuffix(t, "mutBatch.Lock()"), strings.HasSuffix(t, "mutBatch.Unlock()"), t == "return nil", t == "defer b.mutBatch.Unlock()":
 			return ""
+		case strings.HasPrefix(t, "verifPoint(\"") && strings.HasSuffix(t, "\")"):
+			return "" // harness hook: an empty function unless built with tag verif (leveldb/verif_off.go)
 		case t == "b.batch.Put(key, val)":
 			return "ldb.put"
 		case t == "b.batch.Delete(key)":
